@@ -42,7 +42,8 @@ impl Check for C01 {
     }
 
     fn rule(&self) -> String {
-        "seeded Push programs (<= 40 top-level items, nesting <= 6 (plus 65..=1200 wrapping blocks in 1/200 of the runs), all instruction variants, boundary literal pools, \
+        "ENUMERATED: every int / float instruction on every ordered pair of boundary literals, and every program of <= 5 nodes built \
+         from <= 2 distinct instructions (one of them exec-structural) on 3 bool stacks x 2 exec capacities; SEEDED: Push programs (<= 40 top-level items, nesting <= 6 (plus 65..=1200 wrapping blocks in 1/200 of the runs), all instruction variants, boundary literal pools, \
          0-8 initial values per stack, 0-10 inputs bound in seeded order, swarm-weighted instruction families, \
          capacity regimes tiny/small/roomy/unbounded) executed harness-stepped against pushmodel and by the real loop \
          for limits {0,1,t-1,t,t+1,T-1,T,T+1,10^4,MAX}; non-trivial iff >= 3 instruction steps ran and at least one \
